@@ -23,8 +23,12 @@
 (***************************************************************************)
 EXTENDS Builtin
 
-F(idx, opt, tag, ty) == [idx |-> idx, opt |-> opt, tag |-> tag, ty |-> ty, skip |-> FALSE]
-FSkip(idx)           == [idx |-> idx, opt |-> FALSE, tag |-> -1, ty |-> "u8", skip |-> TRUE]
+F(idx, opt, tag, ty) == [idx |-> idx, opt |-> opt, tag |-> tag, ty |-> ty, skip |-> FALSE, osp |-> "plain"]
+FSkip(idx)           == [idx |-> idx, opt |-> FALSE, tag |-> -1, ty |-> "u8", skip |-> TRUE, osp |-> "plain"]
+(* an optional field need not be spelled `Option<T>` in the type definition: osp says how the generator writes it -    *)
+(* "boxed" Box<Option<T>>, "alias" a type alias of Option<T>, "generic" a type parameter instantiated with Option<T>.  *)
+(* The documented format depends on the value being absent, not on the spelling.                                      *)
+Fo(idx, tag, ty, osp) == [idx |-> idx, opt |-> TRUE, tag |-> tag, ty |-> ty, skip |-> FALSE, osp |-> osp]
 Struct(enc, tag, shape, fields) == [kind |-> "struct", enc |-> enc, tag |-> tag, transparent |-> FALSE, shape |-> shape, fields |-> fields]
 Transparent(f)                  == [kind |-> "struct", enc |-> "array", tag |-> -1, transparent |-> TRUE, shape |-> "tuple", fields |-> <<f>>]
 Variant(idx, enc, tag, shape, fields) == [idx |-> idx, enc |-> enc, tag |-> tag, shape |-> shape, fields |-> fields]
@@ -39,11 +43,18 @@ E2x == Enum("array", -1, FALSE, <<Variant(0, "array", -1, "unit", <<>>), Variant
                                   Variant(2, "map", -1, "named", <<F(0, TRUE, -1, "u8"), F(1, FALSE, -1, "str")>>)>>)
 \* E2 whose unit variant became a struct variant with only optional fields
 E2u == Enum("array", -1, FALSE, <<Variant(0, "array", -1, "named", <<F(0, TRUE, -1, "u8"), F(1, TRUE, -1, "str")>>), Variant(1, "array", -1, "tuple", <<F(0, FALSE, -1, "u8")>>)>>)
+\* E2 whose unit variant overrides the enum's encoding, and the same with that variant turned into a struct variant
+E2m  == Enum("array", -1, FALSE, <<Variant(0, "map", -1, "unit", <<>>), Variant(1, "array", -1, "tuple", <<F(0, FALSE, -1, "u8")>>)>>)
+E2mu == Enum("array", -1, FALSE, <<Variant(0, "map", -1, "named", <<F(0, TRUE, -1, "u8"), F(1, TRUE, -1, "str")>>), Variant(1, "array", -1, "tuple", <<F(0, FALSE, -1, "u8")>>)>>)
+\* the other way round: a map-encoded enum whose unit variant is array-encoded
+E2a  == Enum("map", -1, FALSE, <<Variant(0, "array", -1, "unit", <<>>), Variant(1, "map", -1, "tuple", <<F(0, FALSE, -1, "u8")>>)>>)
+E2au == Enum("map", -1, FALSE, <<Variant(0, "array", -1, "tuple", <<F(0, TRUE, -1, "u8")>>), Variant(1, "map", -1, "tuple", <<F(0, FALSE, -1, "u8")>>)>>)
 IO  == Enum("array", -1, TRUE, <<Variant(0, "array", -1, "unit", <<>>), Variant(1, "array", -1, "unit", <<>>)>>)
 IOx == Enum("array", -1, TRUE, <<Variant(0, "array", -1, "unit", <<>>), Variant(1, "array", -1, "unit", <<>>), Variant(7, "array", -1, "unit", <<>>)>>)
 Nested(ty) == CASE ty = "inA" -> InA [] ty = "inM" -> InM [] ty = "e2" -> E2 [] ty = "e2x" -> E2x [] ty = "e2u" -> E2u [] ty = "io" -> IO [] ty = "iox" -> IOx
-IsNestedTy(ty) == ty \in {"inA", "inM", "e2", "e2x", "e2u", "io", "iox"}
-IsEnumTy(ty) == ty \in {"e2", "e2x", "e2u", "io", "iox"}
+                [] ty = "e2m" -> E2m [] ty = "e2mu" -> E2mu [] ty = "e2a" -> E2a [] ty = "e2au" -> E2au
+IsNestedTy(ty) == ty \in {"inA", "inM", "e2", "e2x", "e2u", "io", "iox", "e2m", "e2mu", "e2a", "e2au"}
+IsEnumTy(ty) == ty \in {"e2", "e2x", "e2u", "io", "iox", "e2m", "e2mu", "e2a", "e2au"}
 
 \* ---- values ----------------------------------------------------------------------------
 FV(some, n, b, sub) == [some |-> some, n |-> n, b |-> b, sub |-> sub]
@@ -55,7 +66,13 @@ IsNil(f, x) == (f.opt /\ ~x.some) \/ (f.ty = "cu" /\ f.opt /\ x.n = CuNil)
 \* ---- the documented encoding -------------------------------------------------------------
 TagPrefix(t) == IF t < 0 THEN <<>> ELSE PreferredHead(6, FromNat(t))
 Uint(n) == PreferredHead(0, FromNat(n))
-RECURSIVE DocEnc(_, _), EncField(_, _), EncBody(_, _, _), EncArr(_, _, _, _), EncMapB(_, _, _)
+(* A perturbation pt = [site, i, how] damages exactly one tag of the top-level type: site "top" (the struct's / enum's   *)
+(* tag), "var" (the variant's tag), "f" (the tag of field i of the body); how = "wrong" (another tag number) or         *)
+(* "missing".  NoPt leaves the documented encoding.  (C09: a wrong or missing tag must be reported as an error.)        *)
+NoPt == [site |-> "none", i |-> 0, how |-> "none"]
+TagP(t, hit, pt) == IF ~hit THEN TagPrefix(t) ELSE IF pt.how = "wrong" THEN PreferredHead(6, FromNat(t + 1)) ELSE <<>>
+RECURSIVE DocEncP(_, _, _), EncField(_, _), EncBodyP(_, _, _, _), EncArrP(_, _, _, _, _), EncMapBP(_, _, _, _)
+DocEnc(S, v) == DocEncP(S, v, NoPt)
 \* the value of a field (not nil), without its tag
 EncField(f, x) ==
    CASE f.ty = "u8"    -> Uint(x.n)
@@ -68,31 +85,43 @@ Present(fields, v) == { i \in Live(fields) : ~IsNil(fields[i], v[i]) }
 MaxOfSet(S) == CHOOSE x \in S : \A y \in S : y <= x
 FieldAt(fields, pos) == { i \in Live(fields) : fields[i].idx = pos }
 \* positions pos..last of an array-encoded body: the field at its index, null in gaps and for absent optional values
-EncArr(fields, v, pos, last) == IF pos > last THEN <<>> ELSE
+EncArrP(fields, v, pos, last, pt) == IF pos > last THEN <<>> ELSE
    (LET s == FieldAt(fields, pos) IN
     IF s = {} THEN <<246>>
     ELSE LET i == CHOOSE j \in s : TRUE IN
          \* an absent Option is null; a nil value of a custom nil-aware codec is written by that codec
-         TagPrefix(fields[i].tag) \o (IF IsNil(fields[i], v[i]) /\ fields[i].ty # "cu" THEN <<246>> ELSE EncField(fields[i], v[i])))
-   \o EncArr(fields, v, pos + 1, last)
+         TagP(fields[i].tag, pt.site = "f" /\ pt.i = i, pt) \o (IF IsNil(fields[i], v[i]) /\ fields[i].ty # "cu" THEN <<246>> ELSE EncField(fields[i], v[i])))
+   \o EncArrP(fields, v, pos + 1, last, pt)
 \* map-encoded body: index keys ascending, absent optional values omitted
-EncMapB(fields, v, i) == IF i > Len(fields) THEN <<>> ELSE
-   (IF i \in Present(fields, v) THEN Uint(fields[i].idx) \o TagPrefix(fields[i].tag) \o EncField(fields[i], v[i]) ELSE <<>>)
-   \o EncMapB(fields, v, i + 1)
-EncBody(enc, fields, v) ==
+EncMapBP(fields, v, i, pt) == IF i > Len(fields) THEN <<>> ELSE
+   (IF i \in Present(fields, v) THEN Uint(fields[i].idx) \o TagP(fields[i].tag, pt.site = "f" /\ pt.i = i, pt) \o EncField(fields[i], v[i]) ELSE <<>>)
+   \o EncMapBP(fields, v, i + 1, pt)
+EncBodyP(enc, fields, v, pt) ==
    LET pr == Present(fields, v) IN
    IF enc = "array" THEN
       (IF pr = {} THEN <<128>>
-       ELSE LET last == MaxOfSet({ fields[i].idx : i \in pr }) IN PreferredHead(4, FromNat(last + 1)) \o EncArr(fields, v, 0, last))
-   ELSE PreferredHead(5, FromNat(Cardinality(pr))) \o EncMapB(fields, v, 1)
-DocEnc(S, v) ==
+       ELSE LET last == MaxOfSet({ fields[i].idx : i \in pr }) IN PreferredHead(4, FromNat(last + 1)) \o EncArrP(fields, v, 0, last, pt))
+   ELSE PreferredHead(5, FromNat(Cardinality(pr))) \o EncMapBP(fields, v, 1, pt)
+EncBody(enc, fields, v) == EncBodyP(enc, fields, v, NoPt)
+DocEncP(S, v, pt) ==
    IF S.kind = "struct" THEN
-      (IF S.transparent THEN EncField(S.fields[1], v[1]) ELSE TagPrefix(S.tag) \o EncBody(S.enc, S.fields, v))
+      (IF S.transparent THEN EncField(S.fields[1], v[1]) ELSE TagP(S.tag, pt.site = "top", pt) \o EncBodyP(S.enc, S.fields, v, pt))
    ELSE LET va == S.variants[v.var] IN
-        TagPrefix(S.tag) \o
+        TagP(S.tag, pt.site = "top", pt) \o
         (IF S.index_only THEN Uint(va.idx)
-         ELSE <<130>> \o Uint(va.idx) \o TagPrefix(va.tag) \o
-              (IF va.shape = "unit" THEN (IF va.enc = "array" THEN <<128>> ELSE <<160>>) ELSE EncBody(va.enc, va.fields, v.fv)))
+         ELSE <<130>> \o Uint(va.idx) \o TagP(va.tag, pt.site = "var", pt) \o
+              (IF va.shape = "unit" THEN (IF va.enc = "array" THEN <<128>> ELSE <<160>>) ELSE EncBodyP(va.enc, va.fields, v.fv, pt)))
+\* the places of a value's encoding where a tag stands (present fields only: an absent tagged field may be a bare null)
+TagSites(S, v) ==
+   IF S.kind = "struct" THEN
+      (IF S.transparent THEN {} ELSE (IF S.tag >= 0 THEN {[site |-> "top", i |-> 0]} ELSE {})
+                                     \cup { [site |-> "f", i |-> i] : i \in { j \in Present(S.fields, v) : S.fields[j].tag >= 0 } })
+   ELSE LET va == S.variants[v.var] IN
+        (IF S.tag >= 0 THEN {[site |-> "top", i |-> 0]} ELSE {})
+        \cup (IF S.index_only THEN {} ELSE
+               (IF va.tag >= 0 THEN {[site |-> "var", i |-> 0]} ELSE {})
+               \cup (IF va.shape = "unit" THEN {} ELSE { [site |-> "f", i |-> i] : i \in { j \in Present(va.fields, v.fv) : va.fields[j].tag >= 0 } }))
+Perturbations(S, v) == { [site |-> x.site, i |-> x.i, how |-> h] : x \in TagSites(S, v), h \in {"wrong", "missing"} }
 \* the derived CborLen must be the length of exactly that
 DerLen(S, v) == Len(DocEnc(S, v))
 
